@@ -280,7 +280,7 @@ def r133(prog, chk):
         loops = [a for a in prog.ix.ancestors(u) if isinstance(a, ast.For)]
         ok = len(loops) == 1 and T(loops[0].iter) == src and isinstance(loops[0].target, ast.Name)
         if ok:
-            inner = [g for g in may_conds(prog, pre, u) if g.polarity in (True, False) and any(a is loops[0] for a in prog.ix.ancestors(g.test))]
+            inner = [g for g in may_conds(prog, pre, u) if g.polarity in (True, False) and any(a is loops[0] for a in prog.ix.ancestors(g.loc))]
             ok = not inner and not [x for x in ast.walk(loops[0]) if isinstance(x, (ast.Break, ast.Return))]
             v = u.args[0] if isinstance(u, ast.Call) else u.value
             ok = ok and f"{loops[0].target.id}.lib" in T(v) and "public.skipExportGlyphs" in T(v)
@@ -321,6 +321,21 @@ def _glyphset_origin_uncached(prog, fi, name_node) -> bool:
                 return False
         return True
     return False
+
+
+def check_scripts_from_exported_glyphs(prog, chk, rule):
+    """guessFontScripts only classifies the code points of glyphs that are in the writer's glyph set: scripts of skipped
+    (non-exported) glyphs are not scripts of the font.  Shared with C20 (R20.6: a script registered for kerning only)."""
+    ix = prog.ix
+    # scripts are guessed from the code points of exported glyphs only
+    gs = ix.get_method("ufo2ft.featureWriters.baseFeatureWriter.BaseFeatureWriter", "guessFontScripts", own=True)
+    cl = [c for c in calls_named(gs, "unicodeScriptExtensions")]
+    need(cl, f"cannot interpret {gs.short}: no script classification of code points")
+    for c in cl:
+        fs = facts(prog, gs, c)
+        ok = any(o == "in" and l.endswith(".name") and any(isinstance(n_, ast.Name) and n_.id == r and _glyphset_origin(prog, gs, n_) for n_ in ast.walk(gs.node)) for o, l, r in fs)
+        chk.ob(rule, key(gs, "scripts are guessed from exported glyphs only"), ok, where(gs, c), detail="glyph.name in glyphSet on every path to unicodeScriptExtensions",
+               message=f"{gs.short}: code points of glyphs outside the writer's glyph set (skipped glyphs) take part in guessing the font's scripts")
 
 
 def r134(prog, chk):
@@ -465,15 +480,7 @@ def r134(prog, chk):
     ok = bool(ctor) and all(A.kwarg(c, "glyphSet") is not None and T(A.kwarg(c, "glyphSet")) == "glyphSet" for c in ctor)
     chk.ob("R13.4", key(cf, "feature compiler receives glyphSet"), ok, where(cf), detail="featureCompilerClass(..., glyphSet=glyphSet)",
            message="compileFeatures does not hand the pre-processed glyph set to the feature compiler")
-    # scripts are guessed from the code points of exported glyphs only
-    gs = ix.get_method("ufo2ft.featureWriters.baseFeatureWriter.BaseFeatureWriter", "guessFontScripts", own=True)
-    cl = [c for c in calls_named(gs, "unicodeScriptExtensions")]
-    need(cl, f"cannot interpret {gs.short}: no script classification of code points")
-    for c in cl:
-        fs = facts(prog, gs, c)
-        ok = any(o == "in" and l.endswith(".name") and any(isinstance(n_, ast.Name) and n_.id == r and _glyphset_origin(prog, gs, n_) for n_ in ast.walk(gs.node)) for o, l, r in fs)
-        chk.ob("R13.4", key(gs, "scripts are guessed from exported glyphs only"), ok, where(gs, c), detail="glyph.name in glyphSet on every path to unicodeScriptExtensions",
-               message=f"{gs.short}: code points of glyphs outside the writer's glyph set (skipped glyphs) take part in guessing the font's scripts")
+    check_scripts_from_exported_glyphs(prog, chk, "R13.4")
     chk.minimum("R13.4", 15)
 
 
